@@ -16,9 +16,10 @@ type collector struct {
 	partCount int
 	createdAt time.Time
 
-	mu     sync.Mutex
-	bitMap bitMap
-	buf    []byte
+	mu        sync.Mutex
+	bitMap    bitMap
+	buf       []byte
+	delivered bool
 }
 
 func newCollector(partCount, totalSize int, now time.Time) *collector {
@@ -60,9 +61,16 @@ func (c *collector) isComplete() bool {
 	return c.bitMap.allSet()
 }
 
+// withBuffer calls fn with the reassembled message, at most once per collector: several workers can find the
+// collector complete (the last parts handled concurrently, or a duplicate part arriving while fn runs), and
+// fn is entitled to modify the buffer.
 func (c *collector) withBuffer(fn func([]byte) error) error {
 	c.mu.Lock()
 	defer c.mu.Unlock()
+	if c.delivered {
+		return nil
+	}
+	c.delivered = true
 	return fn(c.buf)
 }
 
